@@ -38,6 +38,11 @@ def _chunk(i, size, text):
     return s if text else s.encode('ascii')
 
 
+def _head(first_chunk, text, as_bytes=False):
+    h = 'H' * len(first_chunk)
+    return h.encode('ascii') if (as_bytes or not text) else h
+
+
 def strat(tier):
     return st.fixed_dictionaries({
         'sub': st.just('crash'),
@@ -59,6 +64,8 @@ def strat(tier):
         'dest_hardlink': st.sampled_from([False, False, False, True]),
         # the existing destination is a symbolic link to a file holding the old content
         'dest_symlink': st.sampled_from([False, False, False, False, True]),
+        # after its writes the body seeks back to the start and overwrites the first chunk (placeholder header, payload, real header)
+        'rewrite_head': st.sampled_from([False, False, False, False, True]),
     })
 
 
@@ -73,6 +80,8 @@ def _config(case):
     text = bool(case['text_mode'])
     chunks = [_chunk(i, SIZES[c % len(SIZES)], text) for i, c in enumerate(case['chunks'])]
     new = ''.join(chunks).encode('utf-8') if text else b''.join(chunks)
+    if case.get('rewrite_head') and chunks and len(chunks[0]):
+        new = _head(chunks[0], text, True) + new[len(chunks[0]):]
     di = case['dest_initial']
     overwrite = bool(case['overwrite'])
     if not overwrite:
@@ -139,6 +148,9 @@ def _body(case, chunks, overwrite, buffering, sandbox):
                 with fileutils.atomic_save(dest, **kw) as f:
                     for c in chunks:
                         f.write(c)
+                    if case.get('rewrite_head') and chunks and len(chunks[0]):
+                        f.seek(0)
+                        f.write(_head(chunks[0], bool(case['text_mode'])))
                     if case.get('body_close'):
                         f.close()
             else:
@@ -147,6 +159,9 @@ def _body(case, chunks, overwrite, buffering, sandbox):
                 f = s.part_file
                 for c in chunks:
                     f.write(c)
+                if case.get('rewrite_head') and chunks and len(chunks[0]):
+                    f.seek(0)
+                    f.write(_head(chunks[0], bool(case['text_mode'])))
                 if case.get('body_close'):
                     f.close()
                 s.__exit__(None, None, None)
@@ -290,6 +305,8 @@ def run(case):
             out.label('destination_has_second_hard_link')
         if symlink:
             out.label('destination_is_symlink')
+        if case.get('rewrite_head') and chunks and len(chunks[0]):
+            out.label('body_rewrites_head')
         if case.get('body_close'):
             out.label('body_closes_file:%s' % ('refused' if refused else 'completed'))
         if case.get('name_len'):
